@@ -91,6 +91,8 @@ class C17:
                 # a build that is expected to fail and does (pack exits non-zero): still one invocation, same arguments
                 "pack_fails": rng.random() < 0.25,
             }
+            # the command set once or twice before on the same configuration (a config reused for several containers)
+            c["command_history"] = [[rng.choice(VALS) for _ in range(rng.randint(1, 2))] for _ in range(rng.choice([0, 0, 1, 2]))] if c["command"] is not None else []
             cases.append(c)
         return cases
 
@@ -104,6 +106,7 @@ class C17:
                "expected": "failure" if c.get("pack_fails") else "success", "pre": "touch" if c["pre"] else None}
         ccfg = {"entrypoint": None if c["entrypoint"] is None else b(c["entrypoint"]),
                 "command": None if c["command"] is None else [b(x) for x in c["command"]],
+                "command_history": [[b(x) for x in h] for h in c.get("command_history", [])],
                 "env": [] if "cenv_calls" in c else [[b(k), b(v)] for k, v in c["cenv"].items()],
                 "env_calls": [{"via": x["via"], "pairs": [[b(k), b(v)] for k, v in x["pairs"]]} for x in c.get("cenv_calls", [])],
                 "ports": c["ports"],
